@@ -149,6 +149,42 @@ Proof.
   destruct (lookup p w) as [it|] eqn:L; [|discriminate]. rewrite PR, (NC w it L). reflexivity.
 Qed.
 
+(** ... and everything a round fills is outstanding at its entry: one idle round of the LTS is one
+    [idle] transition of C02's promise table ([ExecAsync.idle]: the chosen outstanding promises
+    become done and their results are appended to the channels) with chosen = [deliveries mid] —
+    the handler's half of a joint executor + handler model *)
+Theorem round_deliveries_outstanding pre mid s :
+  no_chaining p ->
+  run fx p init (pre ++ LIdleEnter :: mid ++ [LIdleExit]) = Some s -> ~ In LIdleExit mid ->
+  deliveries mid <> [] /\
+  forall w, In w (deliveries mid) ->
+    visible p w = true /\ In w (created_of pre) /\ ~ In w (deliveries pre).
+Proof.
+  intros NC R NX.
+  destruct (round_fulfils pre mid s R NX) as [w0 [D0 _]].
+  split; [intro E; rewrite E in D0; destruct D0|].
+  intros w D.
+  pose proof (delivered_once p WF BF fx _ s R) as ND.
+  apply run_app in R as [sa [Ra R]]. cbn [run] in R.
+  destruct (step fx p sa LIdleEnter) as [sb|] eqn:EB; [|discriminate].
+  apply run_app in R as [sc [Rc R]].
+  assert (PB : st_phase sb = PTop).
+  { simpl in EB. unfold do_idle_enter in EB. destruct (st_phase sa); try discriminate.
+    destruct (_ && _); [|discriminate]. inversion EB; subst sb. reflexivity. }
+  assert (Rbc : run fx p init (pre ++ LIdleEnter :: mid) = Some sc).
+  { apply run_app. exists sa. split; auto. cbn [run]. now rewrite EB. }
+  destruct (delivered_is_created_promise _ sc w Rbc) as [CR PR].
+  { rewrite deliveries_app, deliveries_cons. apply in_or_app. right. simpl. exact D. }
+  destruct (segment p BF fx mid sb sc) as [_ [CM _]]; auto; [left; exact PB|].
+  split; [|split].
+  - unfold visible. unfold promise_item in PR. destruct (lookup p w) as [it|] eqn:L; [|discriminate].
+    rewrite PR, (NC w it L). reflexivity.
+  - rewrite created_of_app in CR. apply in_app_or in CR as [CR|CR]; auto.
+    rewrite created_of_cons, CM in CR. destruct CR.
+  - rewrite deliveries_app, deliveries_cons, deliveries_app in ND. simpl in ND.
+    apply NoDup_app_inv in ND as [_ [_ DJ]]. intro X. apply (DJ w X). apply in_or_app. now left.
+Qed.
+
 (** the executor's calls of the handler are bounded: never more returns of the handler than
     promises filled so far *)
 Definition in_round_delivered (ph : phase) : nat := match ph with PFlush | PDrain => 1 | _ => 0 end.
